@@ -92,6 +92,9 @@ static void c01_case(const uint8_t* src, size_t n) {
     size_t abn = 0;
     size_t w2 = cbor_serialize_alloc(it, &ab, &abn);
     if (ab) { volatile uint8_t s = 0; for (size_t i = 0; i < w2 && i < abn; i++) s ^= ab[i]; (void)s; ta_free(ab); }
+    ab = NULL;
+    w2 = cbor_serialize_alloc(it, &ab, NULL); /* the size out-parameter is optional */
+    if (ab) { volatile uint8_t s = 0; for (size_t i = 0; i < w2; i++) s ^= ab[i]; (void)s; ta_free(ab); }
     cbor_item_t* cp = cbor_copy(it);
     if (cp) {
       VH_COUNT("ops.copy_ok", 1);
@@ -516,6 +519,32 @@ static void stage_gram(void) {
     run_input(x.p, x.n);
     bool full = u < nsys ? (O.thorough || (u % 8 == 0)) : (u % 64 == 0);
     if (x.n <= 4096) gen_neighbours(x.p, x.n, full, input_cb, NULL);
+    /* havoc: several random edits at once (beyond the single-edit neighbourhood) */
+    if (x.n >= 2 && x.n <= 2048) {
+      struct vh_rng hr;
+      vh_rng_seed(&hr, O.seed * 0x4a7c15 + u);
+      static const uint8_t nasty[] = {0xff, 0x5f, 0x7f, 0x9f, 0xbf, 0x1c, 0xf8, 0x18, 0x19, 0x1b, 0x40, 0x60, 0x80, 0xa0, 0xc0, 0xd8, 0x9b, 0xbb, 0x5b, 0x7b, 0x00, 0xf6, 0xfb};
+      int rounds = O.thorough ? 64 : 16;
+      struct vh_buf m = {0};
+      for (int h = 0; h < rounds; h++) {
+        vb_reset(&m); vb_put(&m, x.p, x.n);
+        int edits = 2 + (int)vh_below(&hr, 3);
+        for (int e = 0; e < edits && m.n > 0; e++) {
+          size_t at = vh_below(&hr, m.n);
+          switch (vh_below(&hr, 6)) {
+            case 0: m.p[at] ^= (uint8_t)(1u << vh_below(&hr, 8)); break;
+            case 1: m.p[at] = nasty[vh_below(&hr, sizeof nasty)]; break;
+            case 2: { vb_u8(&m, 0); memmove(m.p + at + 1, m.p + at, m.n - 1 - at); m.p[at] = nasty[vh_below(&hr, sizeof nasty)]; break; }
+            case 3: { size_t len = 1 + vh_below(&hr, 4); if (at + len > m.n) len = m.n - at; memmove(m.p + at, m.p + at + len, m.n - at - len); m.n -= len; break; }
+            case 4: { size_t len = 1 + vh_below(&hr, 8); if (at + len > m.n) len = m.n - at; vb_reserve(&m, len); memmove(m.p + at + len, m.p + at, m.n - at); m.n += len; break; }
+            default: m.n = at + 1; break; /* cut */
+          }
+        }
+        run_input(m.p, m.n);
+        VH_COUNT("havoc_inputs", 1);
+      }
+      vb_free(&m);
+    }
   }
   vb_free(&x);
 }
